@@ -165,10 +165,15 @@ CLAIMED = {
         text="Theorems (Props/C09.v) about the endpoint model (receive path feeding the session handling): for EVERY connected state and whatever bytes have arrived, ending the "
              "connection leaves NOT CONNECTED, an empty receive buffer and a cleared closing flag (C09_close_cleans); from every such state the next connection parses the "
              "Select.req as its first message and answers it, ending SELECTED (C09_reusable_after_close: no stale bytes); a valid stream cut at ANY byte offset delivers exactly "
-             "the messages that arrived completely, nothing partial, nothing dropped (C09_prefix_delivers_whole, by induction over the stream). Tied to the code by cutting "
-             "streams at every offset on the in-memory rig and over real loopback sockets, each library call under a deadline so that a hang is a violation.",
+             "the messages that arrived completely, nothing partial, nothing dropped (C09_prefix_delivers_whole, by induction over the stream); one run of _process_send_queue, as "
+             "harness/gen_sendqueue.py reads it off the source, resolves every queued block whatever the writes do, so the Separate.req of the disconnect handling is never stranded "
+             "(C09_send_queue_drained; the pre-D32 shape strands: C09_send_queue_return_strands). Tied to the code by cutting streams at every offset on the in-memory rig and over "
+             "real loopback sockets, each library call under a deadline so that a hang is a violation; plus directed schedules that the load tests turned up (D35-D38): disable() "
+             "while a peer connects / while the active side's attempt succeeds / racing with the peer's close, a slow application handler for 'disconnected' while the peer is back "
+             "at once, an active endpoint reconnecting with its Select.req open, application threads with failing sends while the peer closes.",
         note=NOTE_COMMON + " Partial: that the disconnect handling and disable() RETURN is runtime behaviour no Gallina model exhibits - it is observed (deadlines, live threads, send queue), "
-             "not proven; the theorems cover the state the endpoint is left in. TcpClientConnection (active mode) is exercised by C20 only.",
+             "not proven; the theorems cover the state the endpoint is left in and the send queue. Forced interleavings wrap a thread object's is_alive() or one attribute read; "
+             "everything else in those rounds is the real connection code on loopback TCP.",
         technique="Rocq proof (invariant + induction over streams on the composed receive/session model) + in-Coq differential correspondence over all cut offsets + loopback-socket runs under deadlines",
         design="5/C09",
     ),
